@@ -2,6 +2,7 @@
     server state the pipeline carries between requests is the query cache and the APQ cache; the POST
     parameter pool is modelled in Model/ParamPool.v; concurrent requests are covered by the correspondence, see DESIGN.) *)
 From GV Require Import Base.Prelude Model.Pipeline Proofs.PipelineProofs Model.Apq Proofs.ApqProofs Model.ParamPool Proofs.ParamPoolProofs.
+From GV Require Import Base.Threads Model.PoolConc Proofs.PoolConcProofs.
 Open Scope list_scope.
 
 (** After ANY finite history of requests (any transports, valid or invalid, any cache kind) the
@@ -57,3 +58,36 @@ Theorem C07_no_cleanup_on_error_refuted :
   = [(PText "B", false); (PText "B", true)]%string.
 Proof. exact no_cleanup_on_error_witness. Qed.
 Print Assumptions C07_no_cleanup_on_error_refuted.
+
+(** ** "... or are in flight beside it": the pooled parameter objects with requests in flight together
+    (Model.PoolConc).  For ANY number of requests, EVERY interleaving of their steps (Get, decode into the object, the
+    executor's read, the deferred clean-up, Put) and EVERY choice sync.Pool makes (any object that is in the pool, or
+    a new one): *)
+
+(** every executor is handed what its request decodes to on a fresh object *)
+Theorem C07_in_flight_as_alone : forall reqs tr s,
+  prun_pool false (pinit reqs) tr = Some s ->
+  Forall2 (fun r v => v = None \/ v = Some (alone_sees (fst r) (snd r))) reqs (seen_by s).
+Proof. exact pool_in_flight_as_alone_lemma. Qed.
+Print Assumptions C07_in_flight_as_alone.
+
+(** and no request is ever stuck *)
+Theorem C07_in_flight_progress : forall reqs tr s i t,
+  prun_pool false (pinit reqs) tr = Some s -> nth_error (ps_thr s) i = Some t -> pt_pc t <> PDone ->
+  pstep false s i None <> None.
+Proof. exact pool_in_flight_progress_lemma. Qed.
+Print Assumptions C07_in_flight_progress.
+
+(** returning the object to the pool before its last use lets another request decode into it *)
+Theorem C07_put_before_last_use_refuted :
+  exists s, prun_pool true (pinit [("h1", [MText FQuery "{ a }"]); ("h2", [MText FQuery "{ b }"; MText FOpName "B"])])
+              [(0, None); (0, None); (1, Some 0); (1, None); (0, None)]%nat = Some s /\
+            nth_error (seen_by s) 0 <> Some (Some (alone_sees "h1" [MText FQuery "{ a }"])).
+Proof. exact early_put_witness. Qed.
+Print Assumptions C07_put_before_last_use_refuted.
+
+Example C07_in_flight_nonvacuous :
+  exists s, prun_pool false (pinit [("h1", [MText FQuery "{ a }"]); ("h2", [MText FQuery "{ b }"; MText FOpName "B"])])
+              [(0, None); (0, None); (1, None); (0, None); (0, None); (0, None); (1, None); (1, None); (1, None); (1, None)]%nat = Some s /\
+            seen_by s = [Some (alone_sees "h1" [MText FQuery "{ a }"]); Some (alone_sees "h2" [MText FQuery "{ b }"; MText FOpName "B"])].
+Proof. exact in_flight_runs. Qed.
